@@ -270,6 +270,30 @@ def default_file_checks():
             checks[f"{name}_binary_default_writes_empty_output"] = buf.getvalue() == b""
         except Exception:
             checks[f"{name}_binary_default_writes_empty_output"] = False
+    # line results: the list a Line.read / Line.values returns belongs to the caller (a block or a section
+    # keeps it as its data): a later read through the same Line, or a change made to a later result, never
+    # changes an earlier one — in text (positional, delimited) and in binary storage
+    from cfinterface.components.integerfield import IntegerField
+    from cfinterface.components.line import Line
+    from cfinterface.components.literalfield import LiteralField
+
+    for name, kw, first, second in (
+        ("positional", {}, "  12 abc\n", "   7 zz\n"),
+        ("delimited", {"delimiter": ";"}, "12;abc\n", "7;zz\n"),
+        ("binary", {"storage": "BINARY"}, b"\x0c\x00\x00\x00abc ", b"\x07\x00\x00\x00zz  "),
+    ):
+        try:
+            ln = Line([IntegerField(4, 0), LiteralField(4, 4 if name != "positional" else 5)], **kw)
+            r1 = ln.read(first)
+            kept = list(r1)
+            v1 = ln.values
+            r2 = ln.read(second)
+            ok = r1 == kept and r1 is not r2 and v1 == kept
+            r2[0] = 99
+            ok = ok and r1 == kept and ln.values is not r2 and ln.values[0] != 99
+            checks[f"line_results_{name}_independent"] = bool(ok and kept[0] == 12)
+        except Exception:
+            checks[f"line_results_{name}_independent"] = False
     return checks
 
 
